@@ -927,4 +927,25 @@ def _chk_xgas_resets(P, g):
     return False, "xgas_save stores phase::p_soln_x without resetting it for phases outside the model; only print_gas_phase does"
 
 
-PRINTWRITE_CHECKS = {"species_list_restored": _chk_species_list_restored, "xgas_resets": _chk_xgas_resets}
+def _chk_inverse_stats_always(P, g):
+    """print_model: the statistics that punch_model writes are (re)started on every path, i.e. no early return on the print flags
+    precedes `max_pct = 0; scaled_error = 0;`"""
+    f = P.one("Phreeqc::print_model")
+    cfg = T.CFG(f)
+    dom = cfg.dominators()
+    need = {"Phreeqc::max_pct": None, "Phreeqc::scaled_error": None}
+    for nd in cfg.nodes:
+        if not T.is_node(nd["n"]):
+            continue
+        for t, how, line, w in T.writes(nd["n"]):
+            root, steps = T.access_path(t)
+            if how == "=" and len(steps) == 1 and steps[0][1] in need and T.lit_value(T.strip_casts(w[4])) == 0 and nd["id"] in dom.get(cfg.exit, ()):
+                need[steps[0][1]] = line
+    readers = [h["q"].split("::")[-1] for h in P.functions.values() if h["q"] != "Phreeqc::print_model" and any(
+        y[0] == "Member" and y[2] in need for y in T.walk(h["body"]))]
+    if all(v is not None for v in need.values()):
+        return True, "print_model restarts max_pct / scaled_error on every path (lines %s), printed or not; other readers: %s" % (sorted(need.values()), ", ".join(sorted(set(readers))))
+    return False, "print_model returns before it computes max_pct / scaled_error when the model is not printed, but %s writes them to the selected output" % ", ".join(sorted(set(readers)))
+
+
+PRINTWRITE_CHECKS = {"species_list_restored": _chk_species_list_restored, "xgas_resets": _chk_xgas_resets, "inverse_stats_always": _chk_inverse_stats_always}
